@@ -172,6 +172,7 @@ class Session:
         self.eng = Engine(prog)
         self.alg = Alg(self.eng)
         self.fmt = Fmt(self.eng)
+        self.fmt.alg = self.alg
 
     def eval(self, body, args=None, gargs=None, genv=None):
         ret, st, fr = self.eng.eval_fn(body, args=args, gargs=gargs, genv=genv)
